@@ -11,6 +11,7 @@
  *                            bits; `path=!` makes stat fail with ENOENT).  A path is looked up as
  *                            given and, if that fails, by its realpath (ancestors are stat'ed as
  *                            dir/.., dir/../.. ...)
+ *   VERIF_OPENDIR_FAIL       opendir() of VERIF_MODDIR fails with EACCES (after the path tests passed)
  *   VERIF_LOG                file that receives one line `dlopen <path>` per dlopen() call
  *
  * Everything else goes to the real libc via dlsym(RTLD_NEXT).  Which symbols the binary really
@@ -172,6 +173,11 @@ DIR *opendir(const char *name)
 {
     static DIR *(*real)(const char *);
     if (!real) real = dlsym(RTLD_NEXT, "opendir");
+    if (is_moddir(name) && getenv("VERIF_OPENDIR_FAIL")) {
+        logline("opendir-fails", name);
+        errno = EACCES;
+        return NULL;
+    }
     if (is_moddir(name)) {
         struct fake_dir *f = calloc(1, sizeof *f);
         f->magic = FAKE_MAGIC;
